@@ -1,4 +1,20 @@
 import Bmc.Proofs.C08
+import Bmc.Proofs.GenEnc.GetSensorReadingReq
+import Bmc.Proofs.GenEnc.GetDCMICapabilitiesInfoReq
+import Bmc.Proofs.GenEnc.GetDCMISensorInfoReq
+import Bmc.Proofs.GenEnc.ChassisControlReq
+import Bmc.Proofs.GenEnc.CloseSessionReq
+import Bmc.Proofs.GenEnc.GetChannelAuthenticationCapabilitiesReq
+import Bmc.Proofs.GenEnc.GetChannelCipherSuitesReq
+import Bmc.Proofs.GenEnc.GetSDRReq
+import Bmc.Proofs.GenEnc.GetSessionInfoReq
+import Bmc.Proofs.GenEnc.SetSessionPrivilegeLevelReq
+import Bmc.Proofs.GenEnc.OpenSessionReq
+import Bmc.Proofs.GenEnc.RAKPMessage3
+import Bmc.Proofs.GenEnc.RAKPMessage1
+import Bmc.Proofs.GenEnc.Message
+import Bmc.Proofs.GenEnc.GetPowerReadingReq
+import Bmc.Proofs.GenEnc.V2Session
 #print axioms Bmc.Proofs.C08.message_roundtrip
 #print axioms Bmc.Proofs.C08.message_reencode
 #print axioms Bmc.Proofs.C08.v2_roundtrip
@@ -10,3 +26,22 @@ import Bmc.Proofs.C08
 #print axioms Bmc.Proofs.C08.rakp1_toolong
 #print axioms Bmc.Proofs.C08.rakp1_reencode
 #print axioms Bmc.Proofs.C08.aes_roundtrip
+#print axioms Bmc.Proofs.GenEnc.GetSensorReadingReq_enc_eq
+#print axioms Bmc.Proofs.GenEnc.GetDCMICapabilitiesInfoReq_enc_eq
+#print axioms Bmc.Proofs.GenEnc.GetDCMISensorInfoReq_enc_eq
+#print axioms Bmc.Proofs.GenEnc.ChassisControlReq_enc_eq
+#print axioms Bmc.Proofs.GenEnc.CloseSessionReq_enc_eq
+#print axioms Bmc.Proofs.GenEnc.GetChannelAuthenticationCapabilitiesReq_enc_eq
+#print axioms Bmc.Proofs.GenEnc.GetChannelCipherSuitesReq_enc_eq
+#print axioms Bmc.Proofs.GenEnc.GetSDRReq_enc_eq
+#print axioms Bmc.Proofs.GenEnc.GetSessionInfoReq_enc_eq
+#print axioms Bmc.Proofs.GenEnc.SetSessionPrivilegeLevelReq_enc_eq
+#print axioms Bmc.Proofs.GenEnc.OpenSessionReq_enc_eq_inner
+#print axioms Bmc.Proofs.GenEnc.OpenSessionReq_enc_eq
+#print axioms Bmc.Proofs.GenEnc.RAKPMessage3_enc_eq
+#print axioms Bmc.Proofs.GenEnc.RAKPMessage1_enc_eq
+#print axioms Bmc.Proofs.GenEnc.RAKPMessage1_enc_eq_setup
+#print axioms Bmc.Proofs.GenEnc.Message_enc_eq
+#print axioms Bmc.Proofs.GenEnc.GetPowerReadingReq_enc_eq_any
+#print axioms Bmc.Proofs.GenEnc.GetPowerReadingReq_enc_eq
+#print axioms Bmc.Proofs.GenEnc.V2Session_enc_eq
